@@ -47,6 +47,11 @@ CLAIMED = {
         "Decides that the code-memory allocator's shared state is only touched with the global mutex held, that both mutexes are released on every path (with the asymmetric once protocol), that the once protocol publishes value before a release store and reads it only after a non-zero acquire load, that no function reachable from the compile/run entry points writes process-wide state outside a lock or a once-flag first run from orc_init, that registries are written only on the init path or by the registration API, and that no plain variable is read outside and written inside a mutex. Absence of all data races and correctness of concurrent results are not decided.",
         "Trusted: clang CFG; the C11-atomics branch of orconce.h is the one this build compiles; fresh unpublished objects need no lock.",
         "DESIGN.md §4 C08"),
+    "C09": (
+        "symbolic evaluation of the straight-line field assignments of split/merge against tiling identities (linear expression rewriting, no solver), must-facts at merge/split/hand-out sites, same-offset and bounded-copy structural rules",
+        "Decides three necessary conditions of allocator consistency: split and merge conserve offsets, sizes and list links and free the merged chunk after its last use; a chunk is handed out only when unused and large enough, marked used, split only when larger and by the aligned size, with code and exec derived from the same chunk offset of the chunk's own region; the copy into the chunk has exactly the allocated length and rounding never shrinks it. Non-overlap and reuse over arbitrary histories, coalescing completeness and region growth are not decided.",
+        "Trusted: clang AST; linear integer arithmetic without overflow below the 64 KiB region size.",
+        "DESIGN.md §4 C09"),
 }
 
 NOT_YET = "check under construction in this round; not claimed until its rules are exact on the current tree"
